@@ -351,6 +351,87 @@ fn e2e_case(prop: &str, idx: u64, tmproot: &std::path::Path) -> CaseRec {
     }
 }
 
+/// end-to-end: `keep_crlf` from the command line (--keep-output-crlf / --no-keep-output-crlf), the inline
+/// configuration, the document defaults and the format default (Markdown: CR LF translated, Cram: kept).
+/// The command writes `a<CR><LF>`; the observation is the recorded line in the JSON of a failing expectation.
+fn e2e_crlf_case(prop: &str, idx: u64, tmproot: &std::path::Path) -> CaseRec {
+    let mut r = idx;
+    let mut take = |n: u64| {
+        let v = r % n;
+        r /= n;
+        v as u8
+    };
+    // 0 unset, 1 true (keep), 2 false (translate)
+    let cli = take(3);
+    let cram = take(2) == 1;
+    let (inline, defaults) = if cram { (0, 0) } else { (take(3), take(3)) };
+    let dir = tmproot.join(format!("crlf-{idx}"));
+    let _ = std::fs::remove_dir_all(&dir);
+    std::fs::create_dir_all(dir.join("tmp")).unwrap();
+    let yb = |v: u8| if v == 1 { "true" } else { "false" };
+    let mut doc = String::new();
+    let p = if cram {
+        doc.push_str("T\n  $ printf 'a\\r\\n'\n  never-matches\n");
+        dir.join("doc.t")
+    } else {
+        if defaults != 0 {
+            doc.push_str(&format!("---\ndefaults: {{keep_crlf: {}}}\n---\n\n", yb(defaults)));
+        }
+        doc.push_str(&format!("# T\n\n```scrut{}\n$ printf 'a\\r\\n'\nnever-matches\n```\n", if inline != 0 { format!(" {{keep_crlf: {}}}", yb(inline)) } else { String::new() }));
+        dir.join("doc.md")
+    };
+    std::fs::write(&p, doc).unwrap();
+    let mut cmd = std::process::Command::new(scrut_bin());
+    cmd.arg("test").arg("-r").arg("json");
+    if cli == 1 {
+        cmd.arg("--keep-output-crlf");
+    } else if cli == 2 {
+        cmd.arg("--no-keep-output-crlf");
+    }
+    let out = cmd.arg(&p).current_dir(&dir).env("TMPDIR", dir.join("tmp")).output().expect("run scrut");
+    let stdout = String::from_utf8_lossy(&out.stdout).to_string();
+    let json: Option<serde_json::Value> = stdout.find('[').and_then(|p| serde_json::from_str(&stdout[p..]).ok());
+    let mut fails = vec![];
+    // the recorded stdout of the only test case
+    let recorded = json.as_ref().and_then(|j| j.pointer("/0/output/stdout").and_then(|v| v.as_str()).map(|s| s.to_string()));
+    let want_keep = match (cli, inline, defaults) {
+        (1, _, _) => true,
+        (2, _, _) => false,
+        (0, 1, _) => true,
+        (0, 2, _) => false,
+        (0, 0, 1) => true,
+        (0, 0, 2) => false,
+        _ => cram, // format default
+    };
+    let observed = match recorded.as_deref() {
+        Some("a\r\n") => "1",
+        Some("a\n") => "2",
+        _ => "?",
+    };
+    if observed == "?" {
+        fails.push(("C16:e2e-no-json".into(), format!("exit {:?}, recorded stdout {:?}: {}", out.status.code(), recorded, String::from_utf8_lossy(&out.stderr).chars().take(300).collect::<String>())));
+    } else if (observed == "1") != want_keep {
+        fails.push(("C16:keep-crlf-precedence-e2e".into(), format!("recorded {:?}: keep_crlf in effect is {}, expected {} (cli={cli} inline={inline} defaults={defaults} format={})", recorded, observed == "1", want_keep, if cram { "cram" } else { "markdown" })));
+    }
+    let _ = std::fs::remove_dir_all(&dir);
+    // model: slot 1 = keep_crlf (1 true, 2 false); format default: Markdown false, Cram true
+    let mk = |v: u8| {
+        let mut a = A::default();
+        a.s[1] = v;
+        a
+    };
+    let mut fmt = A::default();
+    fmt.s[1] = if cram { 1 } else { 2 };
+    fmt.s[2] = if cram { 3 } else { 1 };
+    CaseRec {
+        op: format!("effective {} {} {} {} -", mk(cli).field(), mk(inline).field(), mk(defaults).field(), fmt.field()),
+        impl_out: format!("-,{},{},-,-,-,-,-", observed, if cram { "3" } else { "1" }),
+        oracle_fail: keep(prop, fails),
+        nontrivial: true,
+        tags: vec!["e2e-crlf".into(), format!("e2e-crlf:format={}", if cram { "cram" } else { "md" })],
+    }
+}
+
 pub fn run(ctx: &Ctx, prop: &str) {
     let seed = ctx.seed;
     // 1. one scalar key at a time: {unset, A, B}^4 over the four layers, for each of the 7 keys
@@ -428,6 +509,9 @@ pub fn run(ctx: &Ctx, prop: &str) {
     std::fs::create_dir_all(&tmproot).unwrap();
     let tr = tmproot.clone();
     ctx.run_stream("e2e-effective-exhaustive", 108, true, |idx| Some(e2e_case(prop, idx, &tr)));
+    // 6. keep_crlf from all four layers: cli x format x (inline x defaults for Markdown) = 3 * 2 * 9 indices (Cram ignores the last two)
+    let tr = tmproot.clone();
+    ctx.run_stream("e2e-keep-crlf-exhaustive", 54, true, |idx| Some(e2e_crlf_case(prop, idx, &tr)));
     let _ = std::fs::remove_dir_all(&tmproot);
 }
 
